@@ -162,6 +162,22 @@ Proof.
   exact D15_attached_only_agrees.
 Qed.
 
+(* Conservative deviation (not a violation of C14; findings.d/C14-stale-update.json): DELETED_PARENT is
+   expanded through the graph only (nodes and RECORDED matches).  A path that became a match during this
+   watch phase (UPDATED d1/n, no node, not yet recorded) stays in `updated` when d1 is moved away
+   afterwards, so the commit records a match that no longer exists and makes the registering step pending:
+   the watch side reruns one step more than a restart, and that rerun registers the pattern afresh from
+   the real tree.  The coverage hypothesis of C14_watch_commit_equals_rescan_partial (U paths exist)
+   fails for this history, so state equality BEFORE the build is refuted here; equality of the result of
+   the rebuild is checked end to end by the E3 case STALE-new-match-then-directory-moved. *)
+Theorem C14_update_then_parent_moved_away_refuted :
+  exists (g : gstate unit) (matches : N -> path -> bool) (d p : path),
+    is_prefix (dir_pre d) p = true /\
+    let w := fold_changes (change_is_relevant unit matches g) (relevant_paths_under unit g)
+                          [mk_item Updated p false; mk_item DeletedParent d false] ws_empty in
+    pmem p (ws_updated w) = true /\ pmem p (ws_deleted w) = false.
+Proof. exists g_stale, all_match, d_stale, p_stale. exact stale_update_survives_deleted_parent. Qed.
+
 (* The generated tables are the ones the proofs rely on: a state the watcher finds relevant is one
    the rescan looks at, and the stricter during-build filter is a subset. *)
 Theorem C14_relevance_tables_consistent :
